@@ -77,6 +77,37 @@ class RangeT(SpanType):
         return 100 + i
 
 
+class RangeZeroT(SpanType):
+    """An integer range through zero: label id 2 is the (falsy) label 0."""
+    name, kind = 'range_zero', 'index'
+
+    def realisable(self, ids):
+        return len(ids) == 0 or _ap(ids) is not None
+
+    def build(self, ids):
+        if not ids:
+            return range(0, 0)
+        d = _ap(ids)
+        return range(ids[0] - 2, ids[-1] - 2 + (1 if d > 0 else -1), d)
+
+    def label(self, i, form):
+        return i - 2
+
+
+_FALSY = {1: 'a', 2: '', 3: 0.0, 4: (), 5: 'e'}
+
+
+class ListFalsyT(SpanType):
+    """Labels that are falsy in Python ('' , 0.0, ()) in the middle of the span."""
+    name, kind = 'list_falsy', 'index'
+
+    def build(self, ids):
+        return [_FALSY[i] for i in ids]
+
+    def label(self, i, form):
+        return _FALSY[i]
+
+
 class ListStrT(SpanType):
     name, kind = 'list_str', 'index'
 
@@ -176,7 +207,7 @@ class PdDatetimeT(SpanType):
         return pd.Timestamp(_D[i]) if form == 'obj' else _D[i]
 
 
-TYPES = [RangeT(), ListStrT(), ListMixedT(), NpIntT(), NpStrT(), PdIndexT(), PdIndexIntT(), PdPeriodAT(), PdPeriodQT(),
+TYPES = [RangeT(), RangeZeroT(), ListFalsyT(), ListStrT(), ListMixedT(), NpIntT(), NpStrT(), PdIndexT(), PdIndexIntT(), PdPeriodAT(), PdPeriodQT(),
          PdDatetimeT()]
 TYPE_BY_NAME = {t.name: t for t in TYPES}
 
